@@ -78,7 +78,8 @@ def make_result(letter: tuple[Any, ...], level: tuple[float, float] = (0.0, 1.0)
 
 
 def alphabet(reduced: bool, slight: bool = False) -> list[tuple[Any, ...]]:  # noqa: FBT001, FBT002
-    objs = [("nan", float("nan")), ("1", 1.0), ("2", 2.0)] + ([] if reduced else [("2b", 2.0), ("3", 3.0)])
+    # (the best value of the alphabet is 0.0: a stored optimum of zero is an optimum like any other)
+    objs = [("nan", float("nan")), ("0", 0.0), ("2", 2.0)] + ([] if reduced else [("2b", 2.0), ("3", 3.0)])
     levels = (True, False, "slight") if slight else (True, False)
     letters: list[tuple[Any, ...]] = [("fun", o, feas, src, tag) for tag, o in objs for feas in levels for src in ("T", "O")]
     letters += [("grad", 0.0, True, "T", "g"), ("nofun", 5.0, True, "T", "n")]
